@@ -161,7 +161,7 @@ PROPS = {
     ],
   },
   'C08': {
-    'rule': 'cases = (single-slot mailbox between one producer and one consumer following the documented protocol: status word with FULL and SLEEPING bits changed by CAS, then uncond_wait / uncond_signal; 1..30 items, generated yields, who is created first, main thread as producer/consumer/neither; W in 1..8; schedule); '
+    'rule': 'cases = (single-slot mailbox between one producer and one consumer following the documented protocol: status word with FULL and SLEEPING bits changed by CAS, then uncond_wait / uncond_signal; 1..30 items, generated yields, who is created first, main thread as producer/consumer/neither, 0..3 bystander threads that only yield, length of the window in which an early signal polls alone (0, 100, 5000, 70000 or 1.1 million polls); W in 1..8; schedule); '
             'non-trivial = a wait happened AND (a signal was issued before the waiter had suspended (signal spun) OR the waiter resumed on another worker); distinct = hash of (program, schedule, seed)',
     'assumptions': COMMON_ASSUME + ['one waiter per uncondition variable at a time (documented)'],
     'stages': [
